@@ -48,6 +48,11 @@ def gen_case(rng, params, idx):
     hier = gen.gen_hierarchy(rng, rng.randint(2, 5), attrs=False, p_multi=0.5)
     pool = [s["name"] for s in hier] + ["object", "int", "str"]
     npos = rng.choice([1, 1, 2])
+    # classes as arguments: type[...] methods come and go (the entry point then changes how it looks arguments up),
+    # next to a method on the *metaclass* of some of the classes passed
+    types_as_args = target != "mtm" and rng.random() < 0.25
+    if types_as_args:
+        pool = pool + [["Ty", "int"], ["Ty", rng.choice([s["name"] for s in hier])], ["Ty", "Shape"], "ABCMeta", "ABCMeta"]
     ops, live, mid = [], [], 0
     nops = rng.randint(3, 25)
     last_sig = None
@@ -85,10 +90,16 @@ def gen_case(rng, params, idx):
         probes = rng.sample(probes, 40)
     if npos > 1:
         probes += [(n,) for n in rng.sample(names, 2)]
+    if types_as_args:
+        cls_probes = ["@int", "@Shape", "@Hashable", "@bool"] + ["@" + n for n in names[:3]]
+        probes += [tuple(rng.choice(cls_probes) if j == k else rng.choice(names) for j in range(npos))
+                   for k in range(npos) for _ in range(6)]
     return {"target": target, "hier": hier, "npos": npos, "ops": ops, "probes": [list(p) for p in probes]}
 
 
 def _val(env, name):
+    if name.startswith("@"):
+        return env.cls(name[1:])       # the class object itself is the argument
     return 1 if name == "int" else "s" if name == "str" else env.cls(name)()
 
 
